@@ -11,6 +11,7 @@ import (
 	"encoding/hex"
 	"encoding/json"
 	"fmt"
+	mrand "math/rand"
 	"os"
 	"os/exec"
 	"sort"
@@ -295,3 +296,11 @@ func (d detRand) Read(p []byte) (int, error) {
 }
 
 func toB64(b []byte) string { return base64.StdEncoding.EncodeToString(b) }
+
+// randSrc adapts the PRNG to math/rand's Source-less big.Int.Rand (needs *rand.Rand).
+func randSrc(r *Rng) *mrand.Rand { return mrand.New(rngSource{r}) }
+
+type rngSource struct{ r *Rng }
+
+func (s rngSource) Int63() int64 { return int64(s.r.U64() >> 1) }
+func (s rngSource) Seed(int64)   {}
